@@ -1,6 +1,7 @@
 (* C15 Progress after faults stop: the enabling mechanisms, as node-local lemmas.  The
    end-to-end convergence claim is explored by the harness, not proved. *)
 From Coq Require Import List NArith.
+From RaftV Require TickProofs.
 From RaftV Require Import Base Types Quorum Progress Tracker Storage Log Raft RawNode QuorumProofs RaftMono RaftRouting NodeProps PreVoteProofs LocalProofs FlowProofs LogProofs ConfProofs.
 Import ListNotations.
 Open Scope N_scope.
@@ -24,3 +25,23 @@ Theorem C15_transfer_aborted : forall st r r',
 Proof. exact transfer_aborted_on_timeout. Qed.
 Print Assumptions C15_transfer_aborted.
 
+
+(* the F7 repair: in an auto-leave joint configuration whose changes are all applied, the tick that
+   gives up a pending leadership transfer goes on to step the proposal that leaves the joint
+   configuration, on a state in which the transfer is already aborted (so the proposal is not
+   dropped for that reason any more) *)
+Theorem C15_transfer_abort_retries_auto_leave : forall st r r',
+  r_state r = StateLeader -> r_check_quorum r = false ->
+  c_auto_leave (t_config (r_trk r)) = true -> r_pending_conf_index r <= l_applied (r_log r) ->
+  r_lead_transferee r <> NoneId ->
+  r_election_timeout r <= r_election_elapsed r + 1 ->
+  tick_heartbeat st r = Ok r' ->
+  let r0 := set_r_lead_transferee
+              (set_r_election_elapsed (set_r_election_elapsed (set_r_heartbeat_elapsed r (r_heartbeat_elapsed r + 1))
+                                                              (r_election_elapsed r + 1)) 0) NoneId in
+  exists l x,
+    l_applied_to (r_log r0) (l_applied (r_log r0)) 0 = Ok l /\
+    step_inner st (set_r_log r0 l) leave_joint_prop = Ok x /\
+    r_lead_transferee (set_r_log r0 l) = NoneId.
+Proof. exact TickProofs.transfer_abort_retries_auto_leave. Qed.
+Print Assumptions C15_transfer_abort_retries_auto_leave.
